@@ -329,6 +329,11 @@ def build_h2_case(rng, streams, mode="prior", others=True, rst=None, order=None,
             ops.append({"t": "rst", "sid": st["sid"], "val": 8})
     cops.insert(0, {"t": "settings", "val": rng.randint(0, 10)})
     sops.insert(0, {"t": "settings", "val": rng.randint(0, 10)})
+    # SETTINGS_HEADER_TABLE_SIZE bounds the PEER's encoder: a half may announce a small table and still send
+    # size updates up to what the other half announced (or the default 4096)
+    for ops in (cops, sops):
+        if rng.random() < 0.4:
+            ops[0]["hts"] = rng.choice([0, 256, 1024, 2048, 4096, 65536])
     case = {"kind": "h2", "h2": {"mode": mode, "client": cops, "server": sops}}
     if mode == "h2c":
         case["h2"]["upgrade"] = upgrade
@@ -541,7 +546,9 @@ def gen_exchange(rng, k, last=False, sizes=None):
         n = rng.choice(["X-Dup", "Accept", "x-dup"])
         rh += [[n, rand_value(rng, 1, 6)] for _ in range(rng.randint(2, 3))]
     if rng.random() < 0.3:
-        rh.append(["Cookie", "; ".join("%s=%s" % (rand_token(rng), rand_token(rng, 0, 6)) for _ in range(rng.randint(1, 3)))])
+        # names from a small pool: a name can come back after a different one (merged into one member of the entry's map)
+        cnames = [rand_token(rng) for _ in range(rng.randint(1, 3))]
+        rh.append(["Cookie", "; ".join("%s=%s" % (rng.choice(cnames), rand_token(rng, 1, 6)) for _ in range(rng.randint(1, 5)))])
     if rng.random() < 0.5:
         rng.shuffle(rh)
     rb = b""
@@ -559,7 +566,8 @@ def gen_exchange(rng, k, last=False, sizes=None):
     sp = proto if rng.random() < 0.9 else ("1.1" if proto == "1.0" else "1.0")
     sh = extra(rng.randint(0, 5), ["Server", "Date", "X-Trace", "Cache-Control", "Vary", "X-A", "etag"])
     if rng.random() < 0.3:
-        sh += [["Set-Cookie", "%s=%s%s" % (rand_token(rng), rand_token(rng), rng.choice(["", "; Path=/", "; HttpOnly", "; Domain=example.com; Secure"]))]
+        snames = [rand_token(rng) for _ in range(2)]
+        sh += [["Set-Cookie", "%s=%s%s" % (rng.choice(snames), rand_token(rng), rng.choice(["", "; Path=/", "; HttpOnly", "; Domain=example.com; Secure"]))]
                for _ in range(rng.randint(1, 2))]
     if 300 <= status < 400:
         sh.append(["Location", "/" + rand_token(rng)])
@@ -651,6 +659,15 @@ def expected_h1_item(e, k):
         return {n: ",".join(vs) for n, vs in m.items()}
     exp["an_req_headers"] = merged(exp["req_headers"])
     exp["an_res_headers"] = merged(exp["res_headers"])
+    # the entry's cookie maps: one member per name, the values of a repeated name joined in wire order
+    cm = {}
+    for n, v in cookies:
+        cm.setdefault(n, []).append(v)
+    exp["an_req_cookies"] = {n: ",".join(vs) for n, vs in cm.items()}
+    sm = {}
+    for n, v in scookies:
+        sm.setdefault(n, []).append(v)
+    exp["an_res_cookies"] = {n: sorted(vs) for n, vs in sm.items()}
     return exp
 
 
@@ -717,6 +734,12 @@ def diff_h1_item(exp, v):
             eh.pop("Connection", None)
         if (an.get("resHeaders") or {}) != eh:
             d.append("analyze-res-headers")
+        if "an_req_cookies" in exp:
+            if (an.get("reqCookies") or {}) != exp["an_req_cookies"]:
+                d.append("analyze-req-cookies")
+            got = {n: sorted(str(v).split(",")) for n, v in (an.get("resCookies") or {}).items()}
+            if got != exp["an_res_cookies"]:
+                d.append("analyze-res-cookies")
     return d
 
 
